@@ -611,19 +611,31 @@ fn parse_set_value(kind: ScalarKind, input: &str) -> anyhow::Result<Vec<u8>> {
         }
     }
 
+    // A number that the variable's type cannot hold is refused: a narrowing cast would store a
+    // different value than the one the user typed.
+    fn signed<T: TryFrom<i128>>(s: &str, ty: &str) -> anyhow::Result<T> {
+        let v = parse_int_i128(s)?;
+        T::try_from(v).map_err(|_| anyhow!("{v} is out of range for {ty}"))
+    }
+
+    fn unsigned<T: TryFrom<u128>>(s: &str, ty: &str) -> anyhow::Result<T> {
+        let v = parse_int_u128(s)?;
+        T::try_from(v).map_err(|_| anyhow!("{v} is out of range for {ty}"))
+    }
+
     match kind {
-        ScalarKind::I8 => Ok(vec![(parse_int_i128(s)? as i8) as u8]),
-        ScalarKind::U8 => Ok(vec![parse_int_u128(s)? as u8]),
-        ScalarKind::I16 => Ok((parse_int_i128(s)? as i16).to_le_bytes().to_vec()),
-        ScalarKind::U16 => Ok((parse_int_u128(s)? as u16).to_le_bytes().to_vec()),
-        ScalarKind::I32 => Ok((parse_int_i128(s)? as i32).to_le_bytes().to_vec()),
-        ScalarKind::U32 => Ok((parse_int_u128(s)? as u32).to_le_bytes().to_vec()),
-        ScalarKind::I64 => Ok((parse_int_i128(s)? as i64).to_le_bytes().to_vec()),
-        ScalarKind::U64 => Ok((parse_int_u128(s)? as u64).to_le_bytes().to_vec()),
+        ScalarKind::I8 => Ok(signed::<i8>(s, "i8")?.to_le_bytes().to_vec()),
+        ScalarKind::U8 => Ok(vec![unsigned::<u8>(s, "u8")?]),
+        ScalarKind::I16 => Ok(signed::<i16>(s, "i16")?.to_le_bytes().to_vec()),
+        ScalarKind::U16 => Ok(unsigned::<u16>(s, "u16")?.to_le_bytes().to_vec()),
+        ScalarKind::I32 => Ok(signed::<i32>(s, "i32")?.to_le_bytes().to_vec()),
+        ScalarKind::U32 => Ok(unsigned::<u32>(s, "u32")?.to_le_bytes().to_vec()),
+        ScalarKind::I64 => Ok(signed::<i64>(s, "i64")?.to_le_bytes().to_vec()),
+        ScalarKind::U64 => Ok(unsigned::<u64>(s, "u64")?.to_le_bytes().to_vec()),
         ScalarKind::I128 => Ok(parse_int_i128(s)?.to_le_bytes().to_vec()),
         ScalarKind::U128 => Ok(parse_int_u128(s)?.to_le_bytes().to_vec()),
-        ScalarKind::Isize => Ok((parse_int_i128(s)? as isize).to_le_bytes().to_vec()),
-        ScalarKind::Usize => Ok((parse_int_u128(s)? as usize).to_le_bytes().to_vec()),
+        ScalarKind::Isize => Ok(signed::<isize>(s, "isize")?.to_le_bytes().to_vec()),
+        ScalarKind::Usize => Ok(unsigned::<usize>(s, "usize")?.to_le_bytes().to_vec()),
         ScalarKind::F32 => Ok(s
             .parse::<f32>()
             .context("f32 parse")?
@@ -658,8 +670,9 @@ fn parse_set_value(kind: ScalarKind, input: &str) -> anyhow::Result<Vec<u8>> {
                 let u = s.chars().next().unwrap() as u32;
                 Ok(u.to_le_bytes().to_vec())
             } else {
-                let u = parse_int_u128(s)? as u32;
-                Ok(u.to_le_bytes().to_vec())
+                let u = unsigned::<u32>(s, "char")?;
+                let ch = char::from_u32(u).context("char parse: not a unicode scalar value")?;
+                Ok((ch as u32).to_le_bytes().to_vec())
             }
         }
     }
